@@ -73,6 +73,49 @@ def one_bit(res, prog, c):
     return f
 
 
+def accessible_closure(c, f, tree):
+    """`tree` is a call of a closure local to `f` whose body returns true only when memory_info_at_address(<its
+    parameter>) is Some and is_possibly_allowed_for holds for that region: return the argument tree, else None.
+    (The two nested tests of try_bit_flips may be factored into one local predicate.)"""
+    if not (isinstance(tree, tuple) and tree and tree[0] == 'call' and isinstance(tree[1], str)):
+        return None
+    if not re.match(re.escape(f.qual) + r'::\{closure#\d+\}$', tree[1]) or len(tree) != 4:
+        return None
+    g = c.fn(tree[1])
+    if g is None or g.argc != 2 or g.local_ty(0) != 'bool':
+        return None
+    arg = tree[3]
+    if not (arg[0] == 'tuple' and len(arg) == 2):
+        return None
+
+    def on_param(call):
+        return is_call(call, 'memory_info_at_address') and call[3][0] == 'var' and call[3][2] == 2
+    ndefs = 0
+    for b in sorted(g.reach):
+        facts = [r for r, gd, sc in panics.dominating_facts(g, b)]
+        mapped = any(r[0] == 'switch' and r[1][0] == 'discr' and on_param(r[1][1]) and r[2] == 1 for r in facts)
+        allowed = any(r[0] == 'true' and is_call(r[1], 'is_possibly_allowed_for') for r in facts)
+        for st in g.blocks[b]['s']:
+            if st['k'] == 'assign' and st['lhs']['l'] == 0:
+                ndefs += 1
+                v = g.expand(g.rvalue_tree(st['rv']))
+                if v == ('int', 0):
+                    continue
+                if v == ('int', 1) and mapped and allowed:
+                    continue
+                if is_call(v, 'is_possibly_allowed_for') and mapped:
+                    continue
+                return None
+        t = g.blocks[b]['t']
+        if t['k'] == 'call' and (t.get('dest') or {}).get('l') == 0:
+            ndefs += 1
+            ct = g.call_tree(t)
+            mi = g.expand(ct[3]) if len(ct) > 3 else None
+            if not (is_call(ct, 'is_possibly_allowed_for') and mapped and mi is not None and 'memory_info_at_address' in show(mi)):
+                return None
+    return arg[1] if ndefs else None
+
+
 def mapped_or_null(res, prog, c, f):
     res.rule('C19.2', 0, floor=2, note='each push is guarded by candidate == 0 or (mapped at the candidate and possibly allowed)')
     pushes = [(b, t) for b, t in f.calls() if f.callee(t) == 'std::vec::Vec::push' and show(f.operand_tree(t['args'][0])) == 'addresses']
@@ -82,6 +125,11 @@ def mapped_or_null(res, prog, c, f):
         null = any(r[0] == 'eq' and show(r[1]) == 'possible_address' and r[2] == ('int', 0) for r in facts)
         mapped = any(r[0] == 'switch' and r[1][0] == 'discr' and is_call(r[1][1], 'memory_info_at_address') and show(r[1][1][3]) == 'possible_address' and r[2] == 1 for r in facts)
         allowed = any(r[0] == 'true' and is_call(r[1], 'is_possibly_allowed_for') for r in facts)
+        for r in facts:
+            if r[0] == 'true':
+                a = accessible_closure(c, f, r[1])
+                if a is not None and show(a) == 'possible_address':
+                    mapped = allowed = True
         if not (null or (mapped and allowed)):
             res.violation('C19.2', 'C19.2|push', f, t.get('line'), 'a candidate is pushed without `== 0` or (memory_info_at_address(candidate) is Some and is_possibly_allowed_for); facts: %s' % [show(r[1])[:60] for r in facts if len(r) > 1][:6])
         else:
@@ -155,10 +203,13 @@ def gates(res, prog, c, f):
         if t['k'] != 'switch':
             continue
         cond = f.expand(f.operand_tree(t['x']))
-        if is_call(cond, 'is_possibly_allowed_for'):
-            mi = show(cond)
+        rel = panics.relation(f.operand_tree(t['x']), True)
+        via = accessible_closure(c, f, rel[1]) if rel and rel[0] == 'true' else None
+        if is_call(cond, 'is_possibly_allowed_for') or via is not None:
             facts = [r for r, gd, s in panics.dominating_facts(f, b)]
             on_addr = any(r[0] == 'switch' and r[1][0] == 'discr' and is_call(r[1][1], 'memory_info_at_address') and show(r[1][1][3]) == 'address' and r[2] == 1 for r in facts)
+            if via is not None:
+                on_addr = show(via) == 'address'
             if not on_addr:
                 continue
             true_succ = t['o']
